@@ -136,6 +136,7 @@ func (e *Engine) findViolations(st *State, bad *Term, label, msg string) (violat
 		m.Release()
 		v.Sched = e.schedList(st)
 		v.EnvChoices = st.EnvChoices
+		v.EngineOnly = st.EngineOnly
 		if th := st.thread(); th != nil {
 			v.Pos = e.where(th)
 		}
